@@ -913,12 +913,11 @@ func (ex *Ex) trCall(env *Env, e *Expr) (SV, error) {
 		if len(argExprs) != 2 || argExprs[1].Kind != "str" {
 			return SV{}, env.errf(e, "hasMethod(T, \"Name(params) results\")")
 		}
-		s := argExprs[1].Name
-		k := strings.Index(s, "(")
-		if k < 0 {
+		sym, ok := methodSymFromSpec(argExprs[1].Name)
+		if !ok {
 			return SV{}, env.errf(e, "bad method signature string")
 		}
-		return SV{T: App("hasM$"+s[:k]+"$"+mangle(s[k:]), SBool, args[0].T), Ty: tBool}, nil
+		return SV{T: App(sym, SBool, args[0].T), Ty: tBool}, nil
 	case "deref":
 		if err := need(1); err != nil {
 			return SV{}, err
@@ -930,7 +929,7 @@ func (ex *Ex) trCall(env *Env, e *Expr) (SV, error) {
 		}
 		lv := ex.loadFrom(env.fr, env.st, Val{T: a.T}, p.Elem(), nil)
 		return SV{T: lv.T, Ty: SType{G: p.Elem()}}, nil
-	case "callres0", "callres1", "callres2":
+	case "callres0", "callres1", "callres2", "callres3":
 		// callresN(f, args...): the N-th result of calling the (pure) function value f
 		if len(args) < 1 || args[0].Ty.G == nil {
 			return SV{}, env.errf(e, "%s needs a function value", name)
